@@ -132,6 +132,23 @@ Definition sd_changed (c : sdcoll) (d : doc) : bool :=
   | Some h => negb (sd_mcount c =? snd (schema_sig d)) || negb (bytes_eqb h (fst (schema_sig d)))
   end.
 
+(* the outputs of a schema-aware kind for a pure Add sequence: greedy groups, a new
+   one whenever the metric signature differs from the current group's or the
+   group holds n samples (the documents themselves, not only their sizes) *)
+Definition sig_eqb (a b : bytes * Z) : bool := bytes_eqb (fst a) (fst b) && (snd a =? snd b).
+Fixpoint groups_from (n : Z) (cur : list doc) (docs : list doc) : list (list doc) :=
+  match docs with
+  | [] => match cur with [] => [] | _ => [cur] end
+  | d :: r =>
+      match cur with
+      | [] => groups_from n [d] r
+      | c0 :: _ =>
+          if sig_eqb (schema_sig c0) (schema_sig d) && (Z.of_nat (length cur) <? n)
+          then groups_from n (cur ++ [d]) r
+          else cur :: groups_from n [d] r
+      end
+  end.
+
 Section Zlib.
 Variable deflate : bytes -> bytes.
 
